@@ -156,6 +156,20 @@ def handleLLO (op : String) (j : Json) : Option (P Json) :=
         pure (Json.mkObj [("ok", Json.mkObj [("A", .arr outsA), ("B", .arr outsB),
           ("rr", match rr with | some r => jRR r | none => .null)])])
       | _, _ => pure (Json.mkObj [("err", "encode-start")]))
+  | "llo.validate" => some (do
+      let cfg ← fld j "cfg" >>= asCfg
+      let seqNr ← getNat j "seqNr"
+      let badOpts ← (← asArr (fldD j "badOpts")).mapM asBytes
+      let env := mkEnv (fun _ => none) badOpts
+      let oj := fldD j "obs"
+      if (fldD oj "invalid") == Json.bool true then
+        -- undecodable bytes: first-round check comes before decoding
+        pure (Json.mkObj [("ok", .str (if seqNr < 1 then "invalid-seqnr"
+          else if seqNr == 1 then "non-empty-first-round" else "decode"))])
+      else
+        let o ← asObs oj
+        let empty := (fldD j "emptyBytes") == Json.bool true
+        pure (Json.mkObj [("ok", .str ((validateObservation env cfg seqNr empty o).getD "accepted"))]))
   | "llo.converge" => some (do
       -- correct nodes all see `target`; their votes are `observationVotes`; faulty observations are given
       let cfg ← fld j "cfg" >>= asCfg
